@@ -48,3 +48,5 @@ Definition mism_btcb := Eval vm_compute in
   failing (fun c : list Z * list Z * outcome address => let '(b, digest, obs) := c in
              eqb_outcome_addr (btc_from_bytes (fun _ => digest) b) obs) cases_btcb.
 Print mism_btcb.
+Definition mism_api := Eval vm_compute in failing api_model cases_api.
+Print mism_api.
